@@ -10,8 +10,10 @@ mod explore;
 mod fenfuzz;
 mod mgen;
 mod oracles;
+mod plugin;
 mod positions;
 mod roots;
+mod search;
 mod small;
 mod tables;
 
@@ -91,6 +93,22 @@ fn main() {
             gate();
             mgen::run_c10(&args)
         }
+        "C11" => {
+            gate();
+            search::run_c11(&args)
+        }
+        "C12" => {
+            gate();
+            search::run_c12(&args)
+        }
+        "C13" => {
+            gate();
+            search::run_c13(&args)
+        }
+        "C15" => {
+            gate();
+            plugin::run_c15(&args)
+        }
         "C14" => small::run_c14(&args),
         "C16" => small::run_c16(&args),
         "C17" => {
@@ -123,6 +141,8 @@ fn replay(args: &Args) -> i32 {
             "C08" => tables::replay_c08(case),
             "C09" => tables::c09_all().2,
             "C10" => mgen::replay_c10(case),
+            "C11" | "C12" | "C13" => search::replay(&prop, case),
+            "C15" => plugin::replay_c15(case),
             "C14" => small::replay_c14(case),
             "C16" => small::replay_c16(case),
             "C17" => small::c17_walk().divs.into_iter().map(|x| x.0).collect(),
